@@ -225,6 +225,12 @@ func (t *memTarget) ServeHTTP(w http.ResponseWriter, r *http.Request) {
 			f(t.name)
 		}
 		switch mode {
+		case "delay": // answers 200 after probeStatus nanoseconds (unless the prober gave up first)
+			select {
+			case <-time.After(time.Duration(st)):
+				w.WriteHeader(http.StatusOK)
+			case <-r.Context().Done():
+			}
 		case "hang":
 			<-r.Context().Done()
 		case "status":
